@@ -271,6 +271,17 @@ def make_index(ix, n, seed):
         return pd.Index(np.arange(n, dtype="int64") % max(1, (n + 1) // 2), name=name)
     if k == "dup_str":
         return pd.Index(["k%d" % (i % 3) for i in range(n)], dtype=object, name=name)
+    if k in ("cat", "cat_null"):
+        # a categorical row index (labels not in sorted order; "cat_null": with missing entries)
+        labels = ["m", "z", "a", "k"]
+        vals = [labels[int(c)] for c in rng.integers(0, 4, n)]
+        if k == "cat_null":
+            vals = [None if i % 3 == 1 else v for i, v in enumerate(vals)]
+        return pd.CategoricalIndex(vals, categories=labels, name=name)
+    if k == "multi_null":
+        # a level with missing entries
+        a = [None if i % 4 == 2 else "g%d" % (i % 3) for i in range(n)]
+        return pd.MultiIndex.from_arrays([a, rng.permutation(n)], names=ix.get("names", ["la", "lb"]))
     if k == "multi":
         a = rng.integers(0, 3, n)
         b = rng.permutation(n)
